@@ -53,8 +53,10 @@ thorough: tiny + default-size).  Per configuration (mc/c02_core.py), all exhaust
     driven instance's program when they are identical, else and always in the thorough tier by compiling).
 (4) shared components (mc/c02_shared.py): for every shipped generator class used by the catalogue, two environments
     built around ONE generator object (and, for Sudoku's DatabaseGenerator, two generators built from ONE caller-owned
-    int32 database array) are driven through all sequences of length <= 2 (3 thorough, cheap-eager families) over
-    {a.reset(k0), b.reset(k1), jit(a.reset)(k1), a.step(s0,a0)}; every result must equal the same call on environments
+    int32 database array, and ONE reward-function object handed to two environments of different sizes) are driven
+    through all sequences of length <= 2 (3 thorough, cheap-eager families, four-call alphabet) over
+    {a.reset(k0), b.reset(k1), jit(a.reset)(k1), a.step(s0,a0)} (+ a.step(s1,a1), b.step(t0,b0) for shared reward
+    functions / argument arrays); every result must equal the same call on environments
     whose components are their own, earlier results must stay readable and unchanged, the shared argument objects
     must be unmodified.  Signatures `<family>:shared-component-couples-instances`, `constructor-argument-mutated`.
 (5) configurations of one environment class in one process (mc/c02_cross.py): pairs of configurations with
